@@ -150,12 +150,14 @@ func (ps *ProcessSet) run(ctx context.Context) {
 						process, err := NewProcess(waitingProcess, ps.definitions, append(ps.sourceOptions, WithTracer(subTracer))...)
 						if err != nil {
 							ps.tracer.Send(ErrorTrace{Error: err})
+							ps.wg.Done()
 							continue
 						}
 
 						err = process.StartWith(ctx, startFlowNode)
 						if err != nil {
 							ps.tracer.Send(ErrorTrace{Error: err})
+							ps.wg.Done()
 							continue
 						}
 						ps.wg.Add(1)
@@ -166,6 +168,8 @@ func (ps *ProcessSet) run(ctx context.Context) {
 						cancel()
 					}
 				}
+				// the throw has been dealt with (see tracerProcess)
+				ps.wg.Done()
 			}
 		case <-ps.done:
 			ps.tracer.Send(CeaseProcessSetTrace{Definitions: ps.definitions})
@@ -198,6 +202,9 @@ LOOP:
 			case *schema.ThrowEvent:
 				eventId, ok := evt.Id()
 				if ok {
+					// the set is not complete before the throw has been dealt with: a target
+					// process instantiated by it must be counted before this process can finish
+					wg.Add(1)
 					ps.mch <- throwMessage{Id: *eventId}
 				}
 			}
